@@ -9,6 +9,7 @@ import (
 	"flag"
 	"fmt"
 	"os"
+	"os/exec"
 	"strings"
 	"time"
 
@@ -413,6 +414,7 @@ type replayFile struct {
 		Cfg  cfg    `json:"cfg"`
 		Path []int  `json:"path"`
 		Mode string `json:"mode"`
+		Dirs string `json:"dirs"`
 	} `json:"replay"`
 }
 
@@ -440,6 +442,17 @@ func main() {
 		if err != nil {
 			fmt.Fprintln(os.Stderr, err)
 			os.Exit(3)
+		}
+		if rf.Replay.Dirs != "" && os.Getenv("VERIF_FS_DIRS") == "" {
+			cmd := exec.Command(os.Args[0], os.Args[1:]...)
+			cmd.Env = append(os.Environ(), "VERIF_FS_DIRS="+rf.Replay.Dirs)
+			cmd.Stdout, cmd.Stderr = os.Stdout, os.Stderr
+			err := cmd.Run()
+			os.RemoveAll(tmpRoot)
+			if ee, ok := err.(*exec.ExitError); ok {
+				os.Exit(ee.ExitCode())
+			}
+			return
 		}
 		if rf.Replay.Mode == "size-sweep" {
 			a := ev.NewAcc()
@@ -471,10 +484,37 @@ func main() {
 	if *tier == "thorough" {
 		depth, deep = 5, 8
 	}
+	spelled := *tier == "spelled"
+	if spelled {
+		depth, deep = 2, 0
+	}
 	acc := ev.NewAcc()
-	sizeSweep(acc, *tier)
+	if os.Getenv("VERIF_FS_DIRS") == "" {
+		sizeSweep(acc, *tier)
+		// the same search once more with a directory spelled differently throughout ("d2/"): depth 2
+		for _, dirs := range []string{"d,d2/", "./d,d2"} {
+			cmd := exec.Command(os.Args[0], "-tier", "spelled")
+			cmd.Env = append(os.Environ(), "VERIF_FS_DIRS="+dirs)
+			cmd.Stderr = os.Stderr
+			out, err := cmd.Output()
+			if err != nil {
+				fmt.Fprintln(os.Stderr, "harness error: spelled run:", err)
+				os.Exit(3)
+			}
+			lines := strings.Split(strings.TrimSpace(string(out)), "\n")
+			var a ev.Acc
+			if json.Unmarshal([]byte(lines[len(lines)-1]), &a) != nil {
+				fmt.Fprintln(os.Stderr, "harness error: spelled run: no result")
+				os.Exit(3)
+			}
+			acc.Merge(&a)
+		}
+	}
 	var c cfg
-	for _, c = range []cfg{{Impls: fsh.ImplNames, Depth: depth, Validate: true}, {Impls: fsh.ImplNames, Depth: deep, Validate: true, Narrow: true}} {
+	for _, c = range []cfg{{Impls: fsh.ImplNames, Depth: depth, Validate: !spelled}, {Impls: fsh.ImplNames, Depth: deep, Validate: true, Narrow: true}} {
+		if c.Depth == 0 {
+			continue
+		}
 		cj, _ := json.Marshal(c)
 		st, fails, err := bfs.SearchParallel(16, len(alphabet), c.Depth, start.Add(40*time.Minute), 400, []string{"-worker", string(cj)}, nil)
 		if err != nil {
@@ -503,16 +543,21 @@ func main() {
 			}
 			impl := strings.SplitN(f.Err.Error(), ":", 2)[0]
 			acc.Violate(ev.Violation{
-				Key:    fmt.Sprintf("C12/%s/%s/%s", impl, failKind(f.Err.Error()), strings.Join(names, ";")),
+				Key:    fmt.Sprintf("C12/%s/%s/%s%s", impl, failKind(f.Err.Error()), strings.Join(names, ";"), os.Getenv("VERIF_FS_DIRS")),
 				Msg:    fmt.Sprintf("history [%s]: %v", strings.Join(names, "; "), f.Err),
-				Replay: map[string]any{"cfg": c, "path": f.Path, "ops": names},
+				Replay: map[string]any{"cfg": c, "path": f.Path, "ops": names, "dirs": os.Getenv("VERIF_FS_DIRS")},
 			})
 		}
+	}
+	if spelled {
+		acc.EmitChild()
+		os.RemoveAll(tmpRoot)
+		return
 	}
 	acc.Sample(map[string]any{"alphabet_size": len(alphabet), "example_ops": []string{alphabet[0].String(), alphabet[5].String(), alphabet[30].String(), alphabet[100].String()}, "depth_full_alphabet": depth, "depth_narrow_alphabet": deep, "impls": c.Impls}, 3)
 	os.Exit(acc.Done(ev.Finish{
 		Prop: "C12", Tier: *tier, Level: "model_checking", Start: start,
-		Rule:        "explicit-state BFS over valid histories of Create, Append, Close, Open, ReadAt (offsets 0,1,L-1,L,L+1 x lengths 0,1,L,L+1), Delete, Link, AtomicCreate, List on dirs {d,d2} (one directory name a prefix of the other), names {f,g}, data {\"\",\"a\",\"bc\",5000 bytes}, 3 handle slots (full alphabet to the first depth bound; a reduced alphabet -- one data value, whole-file reads, no List -- to a deeper bound); an operation is enabled only when its documented precondition holds in the reference model; every history replayed on fresh real MemFs and DirFs (over simunix), directly and through the package-level wrappers; passed buffers and returned slices are overwritten by the caller after each call; after the last operation its result, every open read handle and a full read-back of both directories are compared with the reference model; the simunix trace of every history is replayed on the real kernel; plus a size sweep: files of every size on a grid around 4 KiB / 64 KiB (/ 1 MiB thorough), written whole, atomically or in pieces, read back at every grid offset x grid length",
+		Rule:        "explicit-state BFS over valid histories of Create, Append, Close, Open, ReadAt (offsets 0,1,L-1,L,L+1 x lengths 0,1,L,L+1), Delete, Link, AtomicCreate, List on dirs {d,d2} (one directory name a prefix of the other), names {f,g}, data {\"\",\"a\",\"bc\",5000 bytes}, 3 handle slots (full alphabet to the first depth bound; a reduced alphabet -- one data value, whole-file reads, no List -- to a deeper bound); an operation is enabled only when its documented precondition holds in the reference model; every history replayed on fresh real MemFs and DirFs (over simunix), directly and through the package-level wrappers; passed buffers and returned slices are overwritten by the caller after each call; after the last operation its result, every open read handle and a full read-back of both directories are compared with the reference model; the simunix trace of every history is replayed on the real kernel; plus a size sweep: files of every size on a grid around 4 KiB / 64 KiB (/ 1 MiB thorough), written whole, atomically or in pieces, read back at every grid offset x grid length; plus the full alphabet to depth 2 with one directory spelled \"d2/\" and \"./d\" throughout",
 		Assumptions: []string{"simunix models the kernel for DirFs (validated per history by replay on the real kernel)", "state identity = reference-model state (names, link structure, contents, slots); merging is justified by the full read-back equality checked on every transition"},
 	}))
 }
